@@ -402,6 +402,8 @@ def fit_case_3d(draw, max_models=6, max_filters=5, max_sources=4, formats=('v1',
     memmap = draw(st.integers(0, 9)) == 0 if fmt != 'v1' else False
     return {'format': fmt, 'memmap': memmap, 'law': law, 'filters': filters, 'grid': grid, 'sources': srcs,
             'setup': setup, 'av_ranges': [draw(av_ranges())], 'theta': setup['theta'],
+            'ap_storage': draw(st.sampled_from(['asc', 'asc', 'asc', 'desc', 'shuffled'])),
+            'ap_shuffle': list(draw(st.permutations(list(range(len(grid['apertures'])))))),
             'law_units': draw(st.sampled_from([['um', 'cm2/g'], ['um', 'cm2/g'], ['nm', 'm2/kg']])),
             'ap_unit': draw(st.sampled_from(['AU', 'AU', 'pc', 'cm']))}
 
@@ -415,20 +417,27 @@ def build_package_3d(model_dir, case):
     filters = case['filters']
     fmt = case['format']
     nap = len(grid['apertures'])
+    # the aperture table may be STORED in any order (the abstract grid stays ascending)
+    storage = case.get('ap_storage', 'asc')
+    aidx = list(range(nap))
+    if storage == 'desc':
+        aidx = aidx[::-1]
+    elif storage == 'shuffled':
+        aidx = list(case['ap_shuffle'])
     pkgio.write_conf(model_dir, True, case['setup']['step'], version=None if fmt == 'v1' else 2)
     pkgio.write_parameters(model_dir, names, {'par1': [float(i) for i in range(len(names))]})
     if fmt in ('v1', 'v2name'):
         for j, f in enumerate(filters):
-            fl = [[grid['flux'][m][j][a] for a in range(nap)] for m in range(len(names))]
+            fl = [[grid['flux'][m][j][a] for a in aidx] for m in range(len(names))]
             er = [[0.05 * v for v in row] for row in fl]
-            pkgio.write_convolved(model_dir, f['name'], names, f['wav'], grid['apertures'], fl, er)
+            pkgio.write_convolved(model_dir, f['name'], names, f['wav'], [grid['apertures'][a] for a in aidx], fl, er)
     if fmt != 'v1':
         order = sorted(range(len(filters)), key=lambda j: filters[j]['wav'])
         wav = [filters[j]['wav'] for j in order]
-        val = [[[grid['flux'][m][j][a] for j in order] for a in range(nap)] for m in range(len(names))]
+        val = [[[grid['flux'][m][j][a] for j in order] for a in aidx] for m in range(len(names))]
         unc = [[[0.05 * v for v in row] for row in mod] for mod in val]
         unit = case.get('ap_unit', 'AU')
-        aps = [a * AP_UNIT_FACTOR[unit] for a in grid['apertures']]
+        aps = [grid['apertures'][a] * AP_UNIT_FACTOR[unit] for a in aidx]
         pkgio.write_cube(os.path.join(model_dir, 'flux.fits'), names, wav, aps, val, unc, ap_unit=unit)
 
 
